@@ -155,6 +155,13 @@ class RunLab(object):
             if oc == "skip":
                 context.scenario.skip()
                 return
+            if oc in ("skip_feature", "skip_rule"):
+                # documented runtime skipping of "the remaining parts" of the enclosing feature / rule from inside a step
+                target = context.feature
+                if oc == "skip_rule" and getattr(context, "rule", None) is not None:
+                    target = context.rule
+                target.skip(reason="the rest is skipped by %s" % text)
+                return
             if oc == "ki":
                 raise KeyboardInterrupt()
             if oc == "abort":
@@ -196,6 +203,17 @@ class RunLab(object):
                             or (fault.get("ks") is not None and k in fault["ks"])
                         if hit:
                             state.faults_fired.append((k,) + rec)
+                            # whose hook is it?  (the harness's own answer, independent of behave's hook_failed flags)
+                            owner = None
+                            if name.endswith("_tag"):
+                                for attr in ("scenario", "rule", "feature"):
+                                    obj = getattr(context, attr, None)
+                                    if obj is not None:
+                                        owner = obj.name
+                                        break
+                            elif name.split("_", 1)[1] in ("feature", "rule", "scenario"):
+                                owner = ename
+                            state.fault_owners.append(owner)
                             msg = "injected hook failure #%d" % k
                             if fault.get("message"):
                                 msg += " " + fault["message"]
@@ -235,6 +253,7 @@ class RunLab(object):
         st.hook_count = 0
         st.hook_fault = hook_fault
         st.faults_fired = []
+        st.fault_owners = []
         st.step_plugins, st.hook_plugins = list(step_plugins), list(hook_plugins)
         st.user_skip = set(program.get("user_skip") or ()) if isinstance(program, dict) else set()
         st.in_user_code = 0
